@@ -124,6 +124,9 @@ ben("B23", ["C20"], "CLI: -o and -f take plain paths; pathlib reads the document
     (P + "cli.py", "    except (ValueError, RecursionError) as err:\n        # JSONDecodeError", "    except (ValueError, RecursionError, OSError) as err:\n        # JSONDecodeError"),
     (P + "cli.py", "    args.output.write(result)\n", '    if args.output is None or args.output == "-":\n        sys.stdout.write(result)\n    else:\n        import pathlib\n\n        pathlib.Path(args.output).write_text(result, encoding="utf-8")\n'),
 ])
+ben("B24", ["C20"], "CLI: the query file is read as utf-8-sig (a byte-order mark at its start is not part of the query)", [
+    (P + "cli.py", '        type=argparse.FileType(mode="r"),\n        help="Text file containing a JSONPath expression.",', '        type=argparse.FileType(mode="r", encoding="utf-8-sig"),\n        help="Text file containing a JSONPath expression.",'),
+])
 
 
 def apply_edits(root: str, edits: List[Edit]) -> None:
